@@ -120,6 +120,17 @@ def run(ctx):
               "UzReading": Al("UzReading", u2()), "UzMaybe": Al("UzMaybe", u3()),
               "UzP": Proto("UzP", [("a", N("UzUser")), ("b", S(u2())), ("c", N("UzReading")), ("d", S(N("UzMaybe")))])}
         asts.append(("unionzoo%d" % i, Pkg("UnionZoo", [ds[n] for n in order])))
+    # an explicitly tagged union whose tags are exactly the tags yardl derives for an implicitly tagged union with other case types (they share derived
+    # names in the targets); whichever of the two is met first, the verdict and the code are the same
+    tc_impl = lambda: U(((None, P("float32")), (None, P("float64"))))
+    tc_tag = lambda: U((("float32", A(P("float32"), None)), ("float64", A(P("float64"), None))), False, True)
+    tc_impl2 = lambda: U(((None, P("int32")), (None, P("string"))), True)
+    tc_tag2 = lambda: U((("int32", V(P("int32"))), ("string", M(P("string"), P("string")))), True, True)
+    for i, order in enumerate([("TcScale", "TcImage", "TcCode", "TcTable", "TcRec", "TcP"), ("TcImage", "TcScale", "TcTable", "TcCode", "TcRec", "TcP"), ("TcP", "TcRec", "TcTable", "TcImage", "TcCode", "TcScale")]):
+        ds = {"TcScale": Al("TcScale", tc_impl()), "TcImage": Al("TcImage", tc_tag()), "TcCode": Al("TcCode", tc_impl2()), "TcTable": Al("TcTable", tc_tag2()),
+              "TcRec": Rec("TcRec", [("s", tc_impl()), ("i", tc_tag()), ("c", tc_impl2()), ("t", tc_tag2())] if i != 1 else [("i", tc_tag()), ("s", tc_impl()), ("t", tc_tag2()), ("c", tc_impl2())]),
+              "TcP": Proto("TcP", [("r", N("TcRec")), ("a", N("TcScale")), ("b", S(N("TcImage"))), ("c", N("TcCode")), ("d", S(N("TcTable")))])}
+        asts.append(("tagclash%d" % i, Pkg("TagClash", [ds[n] for n in order])))
     # one generic record instantiated with arguments that differ only in a fixed length / shape (the target languages' type syntax erases those)
     f32 = P("float32")
     asts.append(("fixedgeneric", Pkg("FixedGen", [Rec("Pair", [("first", TP("T")), ("second", TP("T"))], ("T",)), Rec("Gradient", [("g", N("Pair", (V(f32, 2),)))]),
